@@ -1,10 +1,178 @@
-/- Driver for `kind = "c08"` (and `"c08:…"`) cases. -/
+/- Driver for `kind = "c08:…"` cases: URI codec (Model/Uri.lean) and key life cycle (Model/Keys.lean). -/
 import Driver.Common
+import AskarModel.Model.Uri
+import AskarModel.Model.Keys
 
 open Lean
 
 namespace Driver.C08
+open Askar Askar.Uri Askar.Keys
 
-def runCase (_j : Json) : Json := jerr "not implemented"
+def toStr (s : String) : Str := s.toUTF8.toList
+
+def ofStr (b : Str) : String :=
+  match String.fromUTF8? (ByteArray.mk b.toArray) with
+  | some s => s
+  | none => "hex:" ++ Askar.Bytes.toHex b
+
+def jstr (b : Str) : Json := .str (ofStr b)
+
+def strLt (a b : Str) : Bool := Askar.Bytes.lt a b
+
+def sortBy {α : Type} (lt : α → α → Bool) (l : List α) : List α := (l.toArray.qsort lt).toList
+
+def jopts (o : Uri.Options) : Json :=
+  Json.mkObj [("scheme", jstr o.scheme), ("user", jstr o.user), ("password", jstr o.password),
+    ("host", jstr o.host), ("path", jstr o.path), ("fragment", jstr o.fragment),
+    ("query", .arr ((sortBy (fun a b => strLt a.1 b.1) o.query).map fun kv => Json.arr #[jstr kv.1, jstr kv.2]).toArray)]
+
+def optsOf (j : Json) : Uri.Options × List (Str × Str) :=
+  let qs := (arr! j "query").map fun p => match asArr p with
+    | [k, v] => (toStr (asStr k), toStr (asStr v))
+    | _ => ([], [])
+  ({ scheme := toStr (str! j "scheme"), user := toStr (str! j "user"), password := toStr (str! j "password"),
+     host := toStr (str! j "host"), path := toStr (str! j "path"), fragment := toStr (str! j "fragment"),
+     query := qs.foldl mapInsert [] }, qs)
+
+/-- equality of Options as Rust compares them (the query as a map) -/
+def optsEq (a b : Uri.Options) : Bool :=
+  a.scheme = b.scheme && a.user = b.user && a.password = b.password && a.host = b.host && a.path = b.path &&
+  a.fragment = b.fragment &&
+  sortBy (fun x y => strLt x.1 y.1) a.query = sortBy (fun x y => strLt x.1 y.1) b.query
+
+def runUriOpts (j : Json) : Json :=
+  match j.getObjVal? "o" with
+  | .ok oj =>
+    let (o, qs) := optsOf oj
+    let uri := intoUriWith qs o
+    let p := parseUri uri
+    Json.mkObj [("uri", jstr uri), ("parsed", jopts p), ("rt", .bool (optsEq p o)), ("wf", .bool o.WF)]
+  | _ => jerr "bad case"
+
+def runUriParse (j : Json) : Json :=
+  let p := parseUri (toStr (str! j "uri"))
+  Json.mkObj [("parsed", jopts p), ("wf", .bool p.WF)]
+
+def methodName : Method → String
+  | .raw => "raw" | .unprotected => "none" | .kdf .interactive => "kdf:int" | .kdf .moderate => "kdf:mod"
+
+def runMethod (j : Json) : Json :=
+  match Method.parse (toStr (str! j "s")) with
+  | .ok m => Json.mkObj [("ok", .str (methodName m))]
+  | .error e => jerr e.name
+
+/-! ### life cycle with a toy instance of the primitives -/
+
+def toy : Crypto where
+  Key := Bytes
+  PK := Nat
+  Blob := Option Bytes × Nat
+  kdf l p s := (match l with | .interactive => 1 | .moderate => 2) :: s ++ p
+  rawKey s := (rawKeyBytes s).map (0 :: ·)
+  wrapPk sk _ pk := (sk, pk)
+  loadPk sk b := if sk = b.1 then .ok b.2 else .error .encryption
+
+abbrev Items := List (Str × Str × Str × Bytes)      -- profile, category, name, value
+
+structure St where
+  fs : Fs toy Items := .absent
+  h : Option (Handle toy) := none
+  ctr : Nat := 0
+
+def mkRnd (n : Nat) : Rnd toy where
+  salt := (List.range 16).map fun i => UInt8.ofNat ((n * 16 + i) % 256)
+  key := [0xFF, UInt8.ofNat (n % 256), UInt8.ofNat (n / 256 % 256)]
+  pk := n
+  nonce := fun _ => []
+  profileName := toStr "<random>"
+
+def passOf (j : Json) (k : String) : PassKey := (strOpt j k).map toStr
+
+def jskip (r : String) : Json := Json.mkObj [("skip", .str r)]
+def jok (j : Json) : Json := Json.mkObj [("ok", j)]
+
+def maskKeyRef (s : Str) : Str :=
+  let rec go : Str → Str
+    | [] => []
+    | l@(b :: rest) => if sSalt ++ [0x3D] <+: l then sSalt ++ [0x3D] ++ toStr "<salt>" else b :: go rest
+  go s
+
+def dump (st : Store toy Items) : Json :=
+  let profs := sortBy (fun (a b : Str) => strLt a b) (st.profiles.map (·.1))
+  Json.mkObj [("default", jstr st.defaultProfile), ("keyref", jstr (maskKeyRef st.keyRef)),
+    ("profiles", .arr (profs.map fun p =>
+      let recs := sortBy (fun (a b : Str × Str × Bytes) => strLt a.1 b.1 || (a.1 = b.1 && strLt a.2.1 b.2.1))
+        ((st.items.filter fun it => it.1 = p).map fun it => it.2)
+      Json.arr #[jstr p, .arr (recs.map fun r => Json.arr #[jstr r.1, jstr r.2.1, jhex r.2.2]).toArray]).toArray)]
+
+def withMethod (j : Json) (k : Method → St × Json) (s : St) : St × Json :=
+  match Method.parse (toStr (str! j "method")) with
+  | .ok m => k m
+  | .error e => (s, jerr e.name)
+
+def step (s : St) (j : Json) : St × Json :=
+  let op := str! j "op"
+  let s := { s with ctr := s.ctr + 1 }
+  let rnd := mkRnd s.ctr
+  match op, s.h, s.fs with
+  | "provision", none, fs =>
+    withMethod j (fun m =>
+      let r := provision toy ([] : Items) fs m (passOf j "pass") ((strOpt j "profile").map toStr) (bool! j "recreate") rnd
+      match r.2 with
+      | .ok h => ({ s with fs := r.1, h := some h }, jok (jstr h.profile))
+      | .error e => ({ s with fs := r.1 }, jerr e.name)) s
+  | "provision", some _, _ => (s, jskip "open")
+  | "open", none, fs =>
+    let go (m : Option Method) : St × Json :=
+      let r := openStore toy fs m (passOf j "pass") ((strOpt j "profile").map toStr)
+      match r.2 with
+      | .ok h => ({ s with fs := r.1, h := some h }, jok (jstr h.profile))
+      | .error e => ({ s with fs := r.1 }, jerr e.name)
+    match strOpt j "method" with
+    | none => go none
+    | some _ => withMethod j (fun m => go (some m)) s
+  | "open", some _, _ => (s, jskip "open")
+  | "rekey", some h, .store st =>
+    withMethod j (fun m =>
+      let r := rekey toy st h m (passOf j "pass") rnd
+      match r.2 with
+      | .ok h' => ({ s with fs := .store r.1, h := some h' }, .str "ok")
+      | .error e => ({ s with fs := .store r.1 }, jerr e.name)) s
+  | "close", some _, _ => ({ s with h := none }, .str "ok")
+  | "remove", none, fs =>
+    let r := removeStore fs
+    ({ s with fs := r.1 }, Json.mkObj [("removed", .bool r.2)])
+  | "remove", some _, _ => (s, jskip "open")
+  | "create_profile", some h, .store st =>
+    let r := createProfile toy st h (toStr (str! j "name")) rnd
+    match r.2 with
+    | .ok n => ({ s with fs := .store r.1 }, jok (jstr n))
+    | .error e => (s, jerr e.name)
+  | "set_default", some _, .store st => ({ s with fs := .store (setDefaultProfile st (toStr (str! j "name"))) }, .str "ok")
+  | "get_default", some _, .store st => (s, jok (jstr st.defaultProfile))
+  | "insert", some _, .store st =>
+    let p := toStr (str! j "profile"); let c := toStr (str! j "c"); let n := toStr (str! j "n")
+    match lookup p st.profiles with
+    | none => (s, jerr "NotFound")
+    | some _ =>
+      if st.items.any fun it => it.1 = p && it.2.1 = c && it.2.2.1 = n then (s, jerr "Duplicate")
+      else ({ s with fs := .store { st with items := st.items ++ [(p, c, n, hex! j "v")] } }, .str "ok")
+  | "dump", some _, .store st => (s, dump st)
+  | _, none, _ => (s, jskip "closed")
+  | _, _, _ => (s, jskip "state")
+
+def runLife (j : Json) : Json :=
+  let r := (arr! j "ops").foldl (fun (acc : St × List Json) op =>
+    let r := step acc.1 op
+    (r.1, r.2 :: acc.2)) (({} : St), [])
+  .arr r.2.reverse.toArray
+
+def runCase (j : Json) : Json :=
+  match str! j "kind" with
+  | "c08:uri-opts" => runUriOpts j
+  | "c08:uri-parse" => runUriParse j
+  | "c08:method" => runMethod j
+  | "c08:life" => runLife j
+  | k => jerr ("unknown kind " ++ k)
 
 end Driver.C08
